@@ -26,7 +26,9 @@ def init(aux=None):
     _impl.update(Dataset=Dataset, Ranking=Ranking, SS=ScoringScheme, K=KemenyComputingFactory,
                  P=PairwiseBasedAlgorithm, OP=OrderedPartition,
                  algs={"borda": BordaCount, "copeland": CopelandMethod, "bioconsert": BioConsert, "bioco": BioCo,
-                       "kwiksort": KwikSortRandom, "pickaperm": PickAPerm, "parcons": ParCons, "exact": ExactAlgorithm})
+                       "kwiksort": KwikSortRandom, "pickaperm": PickAPerm, "parcons": ParCons, "exact": ExactAlgorithm,
+                       "bio2": lambda: BioConsert([BordaCount(), CopelandMethod()])},
+                 Consensus=__import__("corankco.consensus", fromlist=["Consensus"]).Consensus)
 
 
 class Ids:
@@ -93,6 +95,18 @@ def call(kind, ds, ss, nm, unit, cand, algs=None, warm=None):
                         pass
             c = alg.compute_consensus_rankings(ds, ss, True)
             return {"v": _cons(c, nm, unit)}
+        if kind == "handbuilt_score":
+            # a consensus built by hand that ranks only part of the elements (a "top-k"): reading its score may be
+            # refused, it must not touch the dataset
+            u = sorted(ds.universe, key=nm.elem)
+            top = _impl["Ranking"]([{e} for e in u[:max(1, len(u) - 1)]])
+            c = _impl["Consensus"]([top], dataset=ds, scoring_scheme=ss)
+            try:
+                v = c.kemeny_score
+                d = c.description()
+                return {"v": ["score", core.to_units(v, unit)[0], 1 if isinstance(d, str) else 0]}
+            except Exception as ex:
+                return {"v": ["refused", type(ex).__name__]}
         if kind == "read_score":
             c = _impl["algs"]["copeland"]().compute_consensus_rankings(ds, ss, True)
             a = c.kemeny_score
@@ -145,8 +159,12 @@ def run_history(case):
     if case.get("warm"):
         try:
             wD = [list(reversed(r)) for r in D]
+            # an incomplete dataset; every other session uses a scheme that Borda / PickAPerm refuse on it
+            if len(wD) > 1 and wD[-1]:
+                wD = wD[:-1] + [wD[-1][:-1] or wD[-1]]
+            wsch = ([0, 4, 4, 0, 4, 4], [4, 4, 0, 4, 4, 0]) if case["warm"] == 1 else ([0, 4, 2, 0, 4, 0], [2, 2, 0, 2, 2, 0])
             warm = (_impl["Dataset"].from_raw_list(nm.raw_dataset(wD), name="other"),
-                    _impl["SS"](core.scheme_float([0, 4, 4, 0, 4, 4], [4, 4, 0, 4, 4, 0], 4)))
+                    _impl["SS"](core.scheme_float(wsch[0], wsch[1], 4)))
         except Exception:
             warm = None
     for k, kind in enumerate(case["calls"]):
